@@ -39,22 +39,36 @@ static int in_pos; static var out; static OBJ(Ref, OUT); static int cv_piece; st
 static int cv_shows;
 /* the sink: called once per piece, in order, with the piece's text as its own NUL-terminated format and the value fetched
  * through the accessor that matches the conversion */
+/* decoding of one conversion specification as libc does: length modifier -> width in bytes of the C value, signedness */
+struct cv_spec { int is_i, is_u, is_f, width, big; };
+static struct cv_spec cv_decode(const char* fmt) {
+  struct cv_spec r = { 0, 0, 0, 4, 0 }; int nl = 0, nh = 0; size_t i = 0;
+  while (fmt[i] != 0 && fmt[i] != '%') i++;
+  if (fmt[i] != '%') return r;
+  for (i++; fmt[i] != 0; i++) {
+    char c = fmt[i];
+    if (c == 'l') nl++; else if (c == 'j' || c == 'z' || c == 't') nl = 2; else if (c == 'h') nh++; else if (c == 'L') r.big = 1;
+    else if (c == 'd' || c == 'i') { r.is_i = 1; break; } else if (c == 'u' || c == 'o' || c == 'x' || c == 'X') { r.is_u = 1; break; }
+    else if (c == 'f' || c == 'F' || c == 'e' || c == 'E' || c == 'g' || c == 'G') { r.is_f = 1; break; }
+  }
+  r.width = nl ? 8 : nh >= 2 ? 1 : nh == 1 ? 2 : 4;      /* LP64: long and long long are 8 bytes */
+  return r;
+}
+static int64_t cv_narrow(int64_t v, int width, int is_unsigned) {
+  if (width == 8) return v;
+  if (width == 4) return is_unsigned ? (int64_t)(uint32_t)v : (int64_t)(int32_t)v;
+  if (width == 2) return is_unsigned ? (int64_t)(uint16_t)v : (int64_t)(int16_t)v;
+  return is_unsigned ? (int64_t)(uint8_t)v : (int64_t)(int8_t)v;
+}
 static int cv_roundtrip; static int cv_to_calls; static double gh_f; static int64_t gh_i; static int gh_n;
 int cv_format_to(var self, int pos, const char* fmt, ...) {
   if (cv_roundtrip) {   /* C15 writer side: libc prints the argument with the width the conversion names (assumed); the text stands for that value */
     cv_to_calls++;
-    int nl = 0, nh = 0, big = 0, is_f = 0, is_i = 0; size_t i = 0;
-    while (fmt[i] != 0 && fmt[i] != '%') i++;
-    __CPROVER_assert(fmt[i] == '%', "[C15] the writer sends one conversion specification");
-    for (i++; fmt[i] != 0; i++) {
-      char c = fmt[i];
-      if (c == 'l' || c == 'j' || c == 'z' || c == 't') nl++; else if (c == 'h') nh++; else if (c == 'L') big = 1;
-      else if (c == 'd' || c == 'i') { is_i = 1; break; } else if (c == 'f' || c == 'F' || c == 'e' || c == 'g') { is_f = 1; break; }
-    }
-    __CPROVER_assert(is_i || is_f, "[C15] the writer's conversion is a signed integer or floating conversion");
+    struct cv_spec sp = cv_decode(fmt);
+    __CPROVER_assert(sp.is_i || sp.is_u || sp.is_f, "[C15] the writer sends one numeric conversion specification");
     va_list va; va_start(va, fmt);
-    if (is_i) { int64_t v = va_arg(va, int64_t); gh_i = nl ? v : nh >= 2 ? (int64_t)(signed char)v : nh == 1 ? (int64_t)(short)v : (int64_t)(int)v; }
-    if (is_f) { double v = va_arg(va, double); __CPROVER_assert(!big, "[C15] a double is not printed with a long double conversion"); gh_f = v; }
+    if (sp.is_i || sp.is_u) { int64_t v = va_arg(va, int64_t); gh_i = cv_narrow(v, sp.width, sp.is_u); }   /* the text stands for the value libc prints */
+    if (sp.is_f) { double v = va_arg(va, double); __CPROVER_assert(!sp.big, "[C15] a double is not printed with a long double conversion"); gh_f = v; }
     va_end(va);
     __CPROVER_assert(self == out && pos == in_pos, "[C15] the value is written to the sink at the given position");
     return gh_n;
@@ -112,9 +126,15 @@ static const char* cv_from_fmt; static int cv_from_calls;
 int cv_format_from(var self, int pos, const char* fmt, ...) {
   cv_from_calls++; cv_from_fmt = fmt;
   va_list va; va_start(va, fmt);
-  int has_l = 0, is_f = 0, is_i = 0; for (size_t i = 0; fmt[i] != 0 && fmt[i + 1] != 0 && !(fmt[i] == '%' && fmt[i + 1] == 'n'); i++) { if (fmt[i] == 'l') has_l = 1; if (fmt[i] == 'f' || fmt[i] == 'g' || fmt[i] == 'e') is_f = 1; if (fmt[i] == 'i' || fmt[i] == 'd') is_i = 1; }
-  if (is_f) { if (has_l) { double* p = va_arg(va, double*); *p = gh_f; } else { float* p = va_arg(va, float*); *p = (float)gh_f; } }   /* libc stores with the width the conversion names */
-  if (is_i) { if (has_l) { long* p = va_arg(va, long*); *p = gh_i; } else { int* p = va_arg(va, int*); *p = (int)gh_i; } }
+  struct cv_spec sp = cv_decode(fmt);
+  /* libc stores through the pointer with the width the conversion names, and nothing beyond it */
+  if (sp.is_f) { if (sp.big) { long double* p = va_arg(va, long double*); *p = gh_f; } else if (sp.width == 8) { double* p = va_arg(va, double*); *p = gh_f; } else { float* p = va_arg(va, float*); *p = (float)gh_f; } }
+  if (sp.is_i || sp.is_u) {
+    if (sp.width == 8) { int64_t* p = va_arg(va, int64_t*); *p = gh_i; }
+    else if (sp.width == 4) { int32_t* p = va_arg(va, int32_t*); *p = (int32_t)gh_i; }
+    else if (sp.width == 2) { int16_t* p = va_arg(va, int16_t*); *p = (int16_t)gh_i; }
+    else { int8_t* p = va_arg(va, int8_t*); *p = (int8_t)gh_i; }
+  }
   int* n = va_arg(va, int*); *n = gh_n;
   va_end(va);
   return 1;
@@ -142,6 +162,21 @@ void h_look_int(void) {
   COVER(gh_i > (1LL << 40), "a value beyond 32 bits");
 }
 
+#ifdef PS_W
+/* ---- C15: print_to with one numeric specification PS_W, read back by scan_from with PS_R, value in [PS_LO, PS_HI] ---- */
+void h_print_scan(void) {
+  OBJ(Int, X); OBJ(Int, Y); struct Int* x = MK(X, Int, AllocHeap); struct Int* y = MK(Y, Int, AllocHeap); out = MK(OUT, Ref, AllocStack);
+  x->val = nondet_long(); y->val = nondet_long(); gh_n = nondet_int(); in_pos = nondet_int();
+  __CPROVER_assume(x->val >= PS_LO && x->val <= PS_HI && gh_n >= 1 && gh_n <= 40 && in_pos >= 0 && in_pos <= 1000);
+  int64_t v0 = x->val; cv_roundtrip = 1; args_tuple = &arg_items;
+  arg_items[0] = x; int w = print_to_with(out, in_pos, PS_W, args_tuple);
+  ASSERT(cv_to_calls == 1 && w == in_pos + gh_n, "[C15] print_to writes the value once and returns the end of the text");
+  arg_items[0] = y; int r = scan_from_with(out, in_pos, PS_R, args_tuple);
+  ASSERT(y->val == v0, "[C15] an Int written by print_to with a numeric specification is read back by scan_from with the same specification into an equal Int (every value the C type of the specification holds)");
+  ASSERT(r == w && cv_from_calls == 1, "[C15] scan_from consumes exactly the characters print_to wrote");
+  COVER(v0 == PS_LO, "the lowest value of the C type"); COVER(v0 == PS_HI, "the highest value of the C type");
+}
+#endif
 #ifdef CV_NUM_INLINE
 /* ---- C15: the real Int_Show composed with the real Int_Look (and Float likewise) through print_to_with / scan_from_with ---- */
 void h_show_look_int(void) {
